@@ -15,7 +15,7 @@ import threading
 import cli as climod
 import core
 
-LEVEL = "model_checking"
+LEVEL = "exploration"     # cases are drawn from the specification under the TLC seed (a sample of a large space), expected results computed by TLC
 CFG = "INIT Init\nNEXT Next\nCONSTANTS N = %d\n"
 SCRIPT = "#!/bin/sh\necho \"$0\" >> \"$VERIF_MARKER\"\nexit 1\n"
 
